@@ -98,13 +98,14 @@ def check_text(case, ctx):
     """Enumerated cases: {'text': str, 'comp': {Z(str): int}}."""
     f2c, Substance = _parsers()
     exp = {int(k): Fraction(v) for k, v in case["comp"].items()}
+    exact = all(v.denominator == 1 for v in exp.values())
     ctx.nontrivial(len(exp) >= 1)
     ctx.label(case.get("kind", "text"))
     got = sut(f2c, case["text"])
     if is_err(got):
         ctx.fail("valid_formula_rejected", text=case["text"], error=repr(got))
         return
-    compare_composition(ctx, got, exp, "formula_to_composition", case["text"])
+    compare_composition(ctx, got, exp, "formula_to_composition", case["text"], exact=exact)
 
 
 def enum_elements(tier):
@@ -162,6 +163,48 @@ def enum_pairs(tier):
                         yield c
 
 
+def enum_limits(tier):
+    """Size limits named by the quantifier ('unbounded nesting/length') and the '(cr)' state of the documented grammar."""
+    br = ["()", "[]", "{}"]
+    for depth in (10, 20, 30, 40, 48, 52, 56):
+        # ((((H2O)2)1 ...)) with brackets of alternating kind and a multiplier 2 on every 8th level
+        txt, mult = "H2O", 1
+        for lvl in range(depth):
+            o, c = br[lvl % 3]
+            m = 2 if lvl % 8 == 0 else 1
+            txt = o + txt + c + (str(m) if m != 1 else "")
+            mult *= m
+        yield {"kind": "deep_nesting", "depth": depth, "text": txt + "+2(aq)", "comp": {"1": 2 * mult, "8": mult, "0": 2},
+               "thread": True}
+    for n in (300, 600, 1200):
+        yield {"kind": "long_flat", "nterms": n, "text": "CH3" + "CH2" * n + "CH3", "comp": {"6": n + 2, "1": 2 * n + 6}}
+        yield {"kind": "long_flat", "nterms": n, "text": "Na2" + "SO4" * n + "..%dH2O" % 7, "comp": {"11": 2, "16": n, "8": 4 * n + 7, "1": 14}}
+    for body, comp in (("NaCl", {"11": 1, "17": 1}), ("Na2CO3..10H2O", {"11": 2, "6": 1, "8": 13, "1": 20}),
+                       ("Fe2(SO4)3", {"26": 2, "16": 3, "8": 12}), ("alpha-Al2O3", {"13": 2, "8": 3}), ("UO2.25", {"92": 1, "8": "9/4"})):
+        # '(cr)' is a state of the documented grammar; it is not stripped as a suffix, so only uncharged formulas carry it
+        yield {"kind": "state_cr", "text": body + "(cr)", "comp": comp}
+
+
+def check_limit(case, ctx):
+    """Like check_text, optionally in a fresh thread (shallow Python stack: the nesting a parser can take must not
+    depend on how deep the harness happens to be)."""
+    if not case.get("thread"):
+        return check_text(case, ctx)
+    import threading
+    box = {}
+
+    def run():
+        try:
+            check_text(case, ctx)
+        except BaseException as e:  # noqa - re-raised in the calling thread
+            box["exc"] = e
+    t = threading.Thread(target=run)
+    t.start()
+    t.join()
+    if "exc" in box:
+        raise box["exc"]
+
+
 def check_reject(case, ctx):
     f2c, Substance = _parsers()
     ctx.label(case["class"], case.get("mode", ""))
@@ -187,6 +230,9 @@ SUBCHECKS = [
     SubCheck("pairs", check_text, enumerate=enum_pairs, exhaustive=lambda tier: tier == "thorough",
              rule="ordered symbol pairs XY and X2Y3: all 118^2 in thorough; in quick every pair X,Y with len(X)=1 and "
                   "X+lower(Y[0]) a symbol (e.g. C,O vs Co) plus a fixed spread"),
+    SubCheck("limits", check_limit, enumerate=enum_limits,
+             rule="nesting depth 10..56 (fresh thread; the pinned tree parses up to ~60 levels under the default recursion "
+                  "limit), flat formulas of 300/600/1200 counted terms, the '(cr)' state on uncharged formulas"),
     SubCheck("reject", check_reject, strategy=reject_cases, quick=3000, thorough=60000,
              rule="R1 non-element capitalised token inserted; R2 bracket deleted/mismatched/stray; R3 contradictory charge marks"),
 ]
